@@ -10,6 +10,7 @@
    every string that is a sequence of UTF-8 shaped chars ([rf_utf8_ok]: what a Rust &str holds) -- stepping by chars
    and stepping by bytes differ on other byte strings (a lead byte directly followed by ESC). *)
 From Coq Require Import NArith Arith List Bool Lia.
+From AV Require Model.Text.
 From AV Require Import Model.Base Model.Imp Generated.Roff Model.Roff Generated.CansiFn Proofs.CansiSgr.
 Import ListNotations.
 Local Open Scope N_scope.
@@ -206,3 +207,223 @@ Proof.
   destruct (while_fuel0 (S (S (length text))) step ([], text, 0, 0 + 2)) as [[[[v6 s4] a] b]|]; cbn [option_map parse_v fst] in L; [|discriminate].
   inversion L. reflexivity.
 Qed.
+
+(* ---- the byte machine of the hand model, seen char by char -------------------------------------------- *)
+
+(* a string of UTF-8 shaped chars: every char is a lead byte announcing its width followed by width - 1 bytes >= 80
+   (implied by UTF-8 validity, hence by the type &str) *)
+Inductive rf_utf8_ok : list N -> Prop :=
+  | U8nil : rf_utf8_ok []
+  | U8char b cs t : length (b :: cs) = N.to_nat (rf_utf8_width b) -> Forall (fun c => 128 <= c) cs ->
+                    rf_utf8_ok t -> rf_utf8_ok (b :: cs ++ t).
+
+Lemma rf_utf8_ascii b cs : length (b :: cs) = N.to_nat (rf_utf8_width b) -> b < 128 -> cs = [].
+Proof.
+  unfold rf_utf8_width. intros H Hb. apply N.ltb_lt in Hb. rewrite Hb in H. cbn [length] in H.
+  destruct cs; [reflexivity|cbn [length] in H; lia].
+Qed.
+
+(* an ASCII byte is a char of its own: what follows it is again a string of chars *)
+Lemma rf_utf8_ok_after_ascii l : rf_utf8_ok l -> forall p b t, l = p ++ b :: t -> b < 128 -> rf_utf8_ok t.
+Proof.
+  induction 1 as [|b0 cs t0 Hw Hcs Hok IH]; intros p b t E Hb.
+  - destruct p; discriminate.
+  - destruct p as [|x p]; cbn [app] in E; injection E as E1 E2.
+    + subst b0. rewrite (rf_utf8_ascii b cs Hw Hb) in E2. cbn [app] in E2. subst t0. exact Hok.
+    + apply app_eq_app in E2 as [l [[Ea Eb]|[Ea Eb]]].
+      * destruct l as [|y l].
+        -- cbn [app] in Eb. apply (IH [] b t); [symmetry; exact Eb|exact Hb].
+        -- cbn [app] in Eb. inversion Eb; subst. apply Forall_app in Hcs as [_ Hcs]. inversion Hcs; subst. lia.
+      * exact (IH l b t Eb Hb).
+Qed.
+
+Lemma cat_go_high sgr cs : forall pend t, Forall (fun c => 128 <= c) cs ->
+  rf_cat_go RfInText sgr pend (cs ++ t) = rf_cat_go RfInText sgr (rev cs ++ pend) t.
+Proof.
+  induction cs as [|c cs IH]; intros pend t H; [reflexivity|]. inversion H; subst.
+  cbn [app rf_cat_go rev]. replace (c =? 27) with false by (symmetry; apply N.eqb_neq; lia).
+  rewrite IH by assumption. rewrite <- app_assoc. reflexivity.
+Qed.
+
+Lemma cat_go_saw_esc sgr pend t : rf_starts_with (27 :: t) [27; 91] = false ->
+  rf_cat_go RfSawEsc sgr pend t = rf_cat_go RfInText sgr (27 :: pend) t.
+Proof.
+  destruct t as [|b t]; [reflexivity|]. cbn [rf_cat_go]. intros H. destruct (b =? 91) eqn:E.
+  - apply N.eqb_eq in E. subst b. cbn [rf_starts_with] in H. rewrite !N.eqb_refl in H. destruct t; discriminate H.
+  - destruct (b =? 27); reflexivity.
+Qed.
+
+Lemma cat_go_csi sgr pend r : forall acc,
+  rf_cat_go (RfInCsi acc) sgr pend r =
+  match rf_csi_scan r with
+  | Some (p, _, r') => rf_flush sgr pend ++ rf_cat_go RfInText (rf_handle_seq (rev (rev p ++ acc))) [] r'
+  | None => rf_flush sgr (rev r ++ acc ++ 91 :: 27 :: pend)
+  end.
+Proof.
+  induction r as [|b t IH]; intros acc; cbn [rf_cat_go rf_csi_scan]; [reflexivity|].
+  destruct (rf_terminated b); [reflexivity|]. rewrite IH.
+  destruct (rf_csi_scan t) as [[[p tb] r']|]; cbn [rev]; rewrite <- app_assoc; reflexivity.
+Qed.
+
+(* ---- categorise_text_v3 ---------------------------------------------------------------------------------- *)
+
+Lemma g_cansi_with_sgr_eq sgr text a b : g_cansi_with_sgr sgr text a b = (sgr, text).
+Proof. destruct sgr. reflexivity. Qed.
+
+(* the tail of categorise_text_v3: the text after the last match *)
+Definition cat_fin (text : list N) (o : option (rf_sgr * N * list rf_cat)) : option (list rf_cat) :=
+  match o with
+  | None => None
+  | Some (sgr, lo, slices) =>
+      if negb (lo =? len text) then sl <- slice text lo (len text) ;; Some (slices ++ [(sgr, sl)]) else Some slices
+  end.
+
+Lemma rf_flush_rev sgr q : rf_flush sgr (rev q) = match q with [] => [] | _ => [(sgr, q)] end.
+Proof.
+  destruct q as [|x q]; [reflexivity|]. unfold rf_flush. rewrite rev_involutive.
+  destruct (rev (x :: q)) eqn:E; [|reflexivity]. apply (f_equal (@length N)) in E. rewrite rev_length in E. discriminate.
+Qed.
+
+Lemma len_cons_ne {A} (x : A) q a : a + len (x :: q) =? a = false.
+Proof. apply N.eqb_neq. unfold len. cbn [length]. lia. Qed.
+
+Theorem g_cansi_categorise_text_eq text : rf_utf8_ok text -> g_cansi_categorise_text text = Some (rf_categorise text).
+Proof.
+  intros Hok. unfold g_cansi_categorise_text. rewrite g_cansi_parse_eq. cbv zeta.
+  match goal with |- context [for_list0 ?f _ _] => set (step := f) end.
+  assert (C : forall n s pre q sgr slices lo off, text = pre ++ q ++ s -> rf_utf8_ok s -> (length s < n)%nat ->
+              lo = len pre -> off = len pre + len q ->
+              cat_fin text (for_list0 step (rf_matches n off s) (sgr, lo, slices)) =
+              Some (slices ++ rf_cat_go RfInText sgr (rev q) s)).
+  { induction n as [|n IH]; intros s pre q sgr slices lo off Ht Hs Hn -> ->; [lia|].
+    inversion Hs as [|b cs t Hw Hcs Ht0]; subst s.
+    - (* the end of the text *)
+      cbn [rf_matches rf_starts_with rf_chars_next for_list0 cat_fin rf_cat_go]. rewrite rf_flush_rev.
+      rewrite app_nil_r in Ht. destruct q as [|x q].
+      + rewrite app_nil_r in Ht. subst text. rewrite N.eqb_refl. cbn [negb]. rewrite app_nil_r. reflexivity.
+      + replace (len pre =? len text) with false by (symmetry; apply N.eqb_neq; subst text; rewrite len_app; unfold len; cbn [length]; lia).
+        cbn [negb]. rewrite (slice_mid text pre (x :: q) [] (len pre) (len text)).
+        * reflexivity.
+        * rewrite app_nil_r. exact Ht.
+        * reflexivity.
+        * subst text. apply len_app.
+    - cbn [rf_matches]. destruct (rf_starts_with (b :: cs ++ t) [27; 91]) eqn:ES.
+      + (* a CSI sequence *)
+        destruct (rf_starts_with_csi _ ES) as [r Er]. inversion Er as [[Eb Er']]. subst b.
+        rewrite (rf_utf8_ascii 27 cs Hw) in * by lia. cbn [app] in *. subst t. cbn [skipn].
+        cbn [rf_cat_go]. rewrite N.eqb_refl. cbn [rf_cat_go]. rewrite N.eqb_refl. rewrite cat_go_csi.
+        destruct (rf_csi_scan r) as [[[p tb] r']|] eqn:SC.
+        * destruct (rf_csi_scan_some r p tb r' SC) as [-> HT]. rewrite app_nil_r, rev_involutive.
+          cbn [for_list0]. unfold step at 1. cbn [rfm_start rfm_end].
+          rewrite g_cansi_handle_seq_eq.
+          assert (Hpush : (if negb (len pre + len q =? len pre)
+                           then sl <- slice text (len pre) (len pre + len q) ;;
+                                Some (slices ++ [g_cansi_with_sgr sgr sl (len pre) (len pre + len q)])
+                           else Some slices) = Some (slices ++ rf_flush sgr (rev q))).
+          { rewrite rf_flush_rev. destruct q as [|x q].
+            - change (len (@nil N)) with 0. rewrite N.add_0_r, N.eqb_refl. cbn [negb]. rewrite app_nil_r. reflexivity.
+            - rewrite len_cons_ne. cbn [negb].
+              rewrite (slice_mid text pre (x :: q) (27 :: 91 :: (p ++ tb :: r')) (len pre) (len pre + len (x :: q)) Ht eq_refl eq_refl).
+              rewrite g_cansi_with_sgr_eq. reflexivity. }
+          rewrite Hpush. clear Hpush.
+          assert (Hok' : rf_utf8_ok r').
+          { apply (rf_utf8_ok_after_ascii _ Ht0 (91 :: p) tb r' eq_refl). unfold rf_terminated in HT.
+            apply andb_true_iff in HT as [_ HT]. apply N.leb_le in HT. lia. }
+          assert (Hn' : (length r' < n)%nat).
+          { cbn [length] in Hn. rewrite app_length in Hn. cbn [length] in Hn. lia. }
+          assert (Ht' : text = (pre ++ q ++ 27 :: 91 :: p ++ [tb]) ++ [] ++ r').
+          { rewrite Ht. cbn [app]. rewrite <- !app_assoc. cbn [app]. rewrite <- app_assoc. reflexivity. }
+          assert (He : len pre + len q + 2 + len p + 1 = len (pre ++ q ++ 27 :: 91 :: p ++ [tb])).
+          { rewrite !len_app. unfold len. cbn [length]. rewrite app_length. cbn [length]. lia. }
+          rewrite (IH r' _ [] _ _ _ _ Ht' Hok' Hn' He).
+          -- cbn [rev app]. rewrite <- app_assoc. reflexivity.
+          -- rewrite He. change (len (@nil N)) with 0. lia.
+        * (* never terminated: all of it is text *)
+          cbn [for_list0 cat_fin app].
+          replace (len pre =? len text) with false
+            by (symmetry; apply N.eqb_neq; subst text; rewrite !len_app; unfold len; cbn [length]; lia).
+          cbn [negb]. rewrite (slice_mid text pre (q ++ 27 :: 91 :: r) [] (len pre) (len text)).
+          -- f_equal. f_equal. unfold rf_flush.
+             destruct (rev r ++ 91 :: 27 :: rev q) eqn:E; [destruct (rev r); discriminate|]. rewrite <- E.
+             rewrite rev_app_distr. cbn [rev]. rewrite rev_involutive, rev_involutive, <- !app_assoc. reflexivity.
+          -- rewrite app_nil_r. exact Ht.
+          -- reflexivity.
+          -- subst text. apply len_app.
+      + (* one char of text *)
+        assert (Hc : firstn (N.to_nat (rf_utf8_width b)) (b :: cs ++ t) = b :: cs).
+        { rewrite <- Hw. change (b :: cs ++ t) with ((b :: cs) ++ t). rewrite firstn_app, firstn_all, Nat.sub_diag. cbn [firstn]. apply app_nil_r. }
+        cbn [rf_chars_next]. rewrite Hc. change (b :: cs ++ t) with ((b :: cs) ++ t) at 1.
+        rewrite skipn_app, skipn_all, Nat.sub_diag. cbn [skipn app].
+        rewrite (IH t pre (q ++ b :: cs) _ _ (len pre) _).
+        * f_equal. f_equal. rewrite rev_app_distr. cbn [rev]. rewrite <- app_assoc. cbn [app rf_cat_go].
+          destruct (b =? 27) eqn:Eb.
+          -- apply N.eqb_eq in Eb. subst b. rewrite (rf_utf8_ascii 27 cs Hw) in * by lia. cbn [app rev] in *.
+             symmetry. apply cat_go_saw_esc. exact ES.
+          -- symmetry. apply cat_go_high. exact Hcs.
+        * rewrite Ht, <- !app_assoc. reflexivity.
+        * exact Ht0.
+        * cbn [length] in Hn. rewrite app_length in Hn. lia.
+        * reflexivity.
+        * rewrite len_app. lia. }
+  specialize (C (S (S (length text))) text [] [] rf_sgr_default [] 0 0 eq_refl Hok ltac:(lia) eq_refl eq_refl).
+  destruct (for_list0 step (rf_matches (S (S (length text))) 0 text) (rf_sgr_default, 0, [])) as [[[sg lo] sl]|];
+    cbn [cat_fin] in C; [|discriminate].
+  unfold rf_categorise. cbn [rev app] in C.
+  destruct (negb (lo =? len text)).
+  - destruct (slice text lo (len text)) as [x|]; [|discriminate]. rewrite g_cansi_with_sgr_eq. exact C.
+  - exact C.
+Qed.
+
+(* ---- the hypothesis is what a &str satisfies ------------------------------------------------------------ *)
+
+(* the UTF-8 encoding of ANY list of code points (Model/Text.v [str_bytes], the development's notion of the bytes of
+   a Rust string) is a string of UTF-8 shaped chars *)
+Ltac dlia := repeat match goal with |- context [?a / ?b] => let d := fresh "d" in set (d := a / b) in *; clearbody d end; lia.
+
+Lemma rf_utf8_ok_encode c t : rf_utf8_ok t -> rf_utf8_ok (Model.Text.utf8_encode c ++ t).
+Proof.
+  intros Ht. unfold Model.Text.utf8_encode.
+  destruct (c <? 128) eqn:E1.
+  - apply (U8char c [] t); [|constructor|exact Ht]. unfold rf_utf8_width. rewrite E1. reflexivity.
+  - apply N.ltb_ge in E1. destruct (c <? 2048) eqn:E2.
+    + apply N.ltb_lt in E2. assert (c / 64 < 32) by (apply N.div_lt_upper_bound; lia).
+      apply (U8char (192 + c / 64) [128 + c mod 64] t); [|repeat (apply Forall_cons; [apply N.le_add_r|]); apply Forall_nil|exact Ht].
+      unfold rf_utf8_width. replace (192 + c / 64 <? 128) with false by (symmetry; apply N.ltb_ge; dlia).
+      replace (192 + c / 64 <? 224) with true by (symmetry; apply N.ltb_lt; dlia). reflexivity.
+    + apply N.ltb_ge in E2. destruct (c <? 65536) eqn:E3.
+      * apply N.ltb_lt in E3. assert (c / 4096 < 16) by (apply N.div_lt_upper_bound; lia).
+        apply (U8char (224 + c / 4096) [128 + (c / 64) mod 64; 128 + c mod 64] t); [|repeat (apply Forall_cons; [apply N.le_add_r|]); apply Forall_nil|exact Ht].
+        unfold rf_utf8_width. replace (224 + c / 4096 <? 128) with false by (symmetry; apply N.ltb_ge; dlia).
+        replace (224 + c / 4096 <? 224) with false by (symmetry; apply N.ltb_ge; dlia).
+        replace (224 + c / 4096 <? 240) with true by (symmetry; apply N.ltb_lt; dlia). reflexivity.
+      * apply (U8char (240 + c / 262144) [128 + (c / 4096) mod 64; 128 + (c / 64) mod 64; 128 + c mod 64] t);
+          [|repeat (apply Forall_cons; [apply N.le_add_r|]); apply Forall_nil|exact Ht].
+        unfold rf_utf8_width. replace (240 + c / 262144 <? 128) with false by (symmetry; apply N.ltb_ge; dlia).
+        replace (240 + c / 262144 <? 224) with false by (symmetry; apply N.ltb_ge; dlia).
+        replace (240 + c / 262144 <? 240) with false by (symmetry; apply N.ltb_ge; dlia). reflexivity.
+Qed.
+
+Theorem rf_utf8_ok_str_bytes w : rf_utf8_ok (Model.Text.str_bytes w).
+Proof.
+  unfold Model.Text.str_bytes. induction w as [|c w IH]; [constructor|]. cbn [flat_map]. apply rf_utf8_ok_encode. exact IH.
+Qed.
+
+Lemma rf_utf8_ok_ascii l : Forall (fun b => b < 128) l -> rf_utf8_ok l.
+Proof.
+  induction 1 as [|b t Hb _ IH]; [constructor|]. apply (U8char b [] t); [|constructor|exact IH].
+  unfold rf_utf8_width. apply N.ltb_lt in Hb. rewrite Hb. reflexivity.
+Qed.
+
+(* ---- entry points -------------------------------------------------------------------------------------------- *)
+
+(* cansi::v3::categorise_text as translated IS the hand model's one-pass categoriser, on every Rust string *)
+Theorem translated_cansi_categorise_is_model : forall w : list N,
+  g_cansi_categorise_text (Model.Text.str_bytes w) = Some (rf_categorise (Model.Text.str_bytes w)).
+Proof. intros w. apply g_cansi_categorise_text_eq. apply rf_utf8_ok_str_bytes. Qed.
+
+(* what anstyle_roff::to_roff(text).to_roff() computes when cansi is the TRANSLATED crate: the translated categoriser,
+   the lines of anstyle-roff (hand model [rf_doc_lines], itself proved equal to the translated lib.rs in
+   Proofs/RoffGen.v), roff's renderer -- is the hand model the theorems of C15 are about *)
+Theorem translated_cansi_to_roff_is_model : forall input : list N, rf_utf8_ok input ->
+  (cs <- g_cansi_categorise_text input ;; ls <- rf_doc_lines cs ;; Some (rf_render ls)) = rf_to_roff input.
+Proof. intros input H. rewrite (g_cansi_categorise_text_eq input H). reflexivity. Qed.
